@@ -19,8 +19,8 @@
              Identifier of the previous one, and a Code-Reject must not repeat that of the previous Code-Reject
              (RFC 1661 5.1, 5.6); otherwise it prints INADMISSIBLE:<why> in that step.  Every other observable
              is the model's own.  Without an implementation file the policy of /repo HEAD (f.id++ from 0) is used.
-   argv[3] = variant: repaired | echo_unfixed (kind sess only: the host's LCP Echo-Reply depends on the session
-             phase instead of on the LCP automaton being Opened - finding lcp-echo-reply-phase).
+   argv[3] = variant: repaired | lns_down_unfixed (kind lns only: internal/l2tp onLCPDown does not take the NCPs
+             Down - finding lns-lcp-down-ncp-down) | echo_unfixed (historical, before 1b41d89).
    Every step of the repaired variant is also re-checked against the RFC table by the extracted
    [conformsb] (guards the extraction); a failure prints MODELBUG. *)
 let z_of_int (i : int) : z = if i = 0 then Z0 else if i > 0 then Zpos (pos_of_int i) else Zneg (pos_of_int (-i))
@@ -67,6 +67,7 @@ let () =
   let impl_tbl = Array.of_list impl_lines in
   let line_no = ref (-1) in
   let echo_fixed = not (Array.length Sys.argv > 3 && Sys.argv.(3) = "echo_unfixed") in
+  let lns_down_fixed = not (Array.length Sys.argv > 3 && Sys.argv.(3) = "lns_down_unfixed") in
   let vname = "repaired" in
   let v = { fix_cells = true; fix_ncp = true } in
   let restore_fixed = true in
@@ -183,7 +184,7 @@ let () =
             (int_of_z (st_num (!s).s_ip6.st0)) (if evs = [] then "-" else String.concat "," evs) err) ops in
         print_endline (if outl = [] then "empty" else String.concat " " outl)
       with Failure m -> print_endline ("badcase " ^ m) | Not_found -> print_endline "badcase nth")
-    | "sess" :: pool :: ops ->
+    | ("sess" | "lns" as skind) :: pool :: ops ->
       (* the session layer (Sess.v):  UP | F<proto hex>.<code>.<id|c|s>.<cls>.<data hex|-> | AUTH+ | AUTH- | TL | TI | TV
          | CLOSE | TERM;  per op  <phase>/<lcp>/<ipcp>/<ipv6cp>/<ipcpOpen><ipv6cpOpen><linkEnded>:<events>          *)
       (try
@@ -203,7 +204,9 @@ let () =
             let k = int_of_nat k in
             if k < Array.length ch then z_of_int ch.(k)
             else z_of_int (((if Array.length ch = 0 then 0 else ch.(Array.length ch - 1)) + (k - Array.length ch) + 1) land 255) in
-        let c = { s_cfg = default_cfg; has_v4 = (pool <> "0"); echo_fixed = echo_fixed } in
+        let is_lns = (skind = "lns") in
+        let c = { s_cfg = default_cfg; has_v4 = (pool <> "0"); echo_fixed = echo_fixed; lns = is_lns;
+                  lns_down_fixed = lns_down_fixed } in
         let s = ref (sess_init (pick_of "L") (pick_of "I") (pick_of "V")) in
         let tag_of = function TLcp -> "L" | TIpcp -> "I" | TIp6 -> "V" | TNone -> "" in
         let phase_num = function PhDead -> 0 | PhEstablish -> 1 | PhAuthenticate -> 2 | PhNetwork -> 3 | PhOpen -> 4
@@ -223,7 +226,7 @@ let () =
           | OChap cd -> Some (Printf.sprintf "chap.%d" (int_of_z cd))
           | OEchoReply (i, tl) -> Some (Printf.sprintf "echoreply.%d.%s" (int_of_z i) (hex_of_zbytes tl))
           | OProtoRejSent p -> Some (Printf.sprintf "protorejsent.%04x" (int_of_z p))
-          | OSessionOpen -> Some "open" in
+          | OSessionOpen -> if is_lns then None else Some "open" in
         let started = ref false in
         let outl = List.map (fun op ->
           let xop =
